@@ -68,7 +68,9 @@ Definition get_url_params (path : bytes) (query : option bytes) : ures params :=
   let nthq n := nth_error q n in
   let attrs := match nthq 0%nat with Some ((_ :: _) as a) => split_on ","%byte a [] | _ => [s2b "*"] end in
   match (match nthq 1%nat with
-         | Some ((_ :: _) as sc) => if beqs sc (s2b "base") then UOk Base else if beqs sc (s2b "one") then UOk OneLevel
+         (* repair F35: the scope words are ABNF literals (RFC 4516), hence compared without regard to case *)
+         | Some ((_ :: _) as sc0) => let sc := map lc sc0 in
+                                  if beqs sc (s2b "base") then UOk Base else if beqs sc (s2b "one") then UOk OneLevel
                                   else if beqs sc (s2b "sub") then UOk Subtree else UErr EScope
          | _ => UOk Subtree end) with
   | UErr e => UErr e
@@ -90,7 +92,9 @@ Example u_defaults : get_url_params (s2b "/") None =
 Example u_empty_fields : get_url_params (s2b "/") (q "??") =
   UOk {| p_base := []; p_attrs := [s2b "*"]; p_scope := Subtree; p_filter := s2b "(objectClass=*)"; p_exts := [] |}. Proof. vm_compute. reflexivity. Qed.
 Example u_critical : get_url_params (s2b "/") (q "???!x-foo=1") = UErr ECritical. Proof. vm_compute. reflexivity. Qed.
-Example u_scope : get_url_params (s2b "/") (q "cn?Base") = UErr EScope. Proof. vm_compute. reflexivity. Qed.
+Example u_scope : get_url_params (s2b "/") (q "cn?bases") = UErr EScope. Proof. vm_compute. reflexivity. Qed.
+Example u_scope_case : option_map p_scope (match get_url_params (s2b "/") (q "cn?Base") with UOk p => Some p | _ => None end) = Some Base /\
+  option_map p_scope (match get_url_params (s2b "/") (q "cn?SUB") with UOk p => Some p | _ => None end) = Some Subtree. Proof. vm_compute. split; reflexivity. Qed.
 Example u_utf8 : get_url_params (s2b "/dc=%ff") None = UErr EUtf8. Proof. vm_compute. reflexivity. Qed.
 Example u_case : get_url_params (s2b "/") (q "???BindName=a,!1.3.6.1.4.1.1466.20037,X-BINDPW=p%20w") =
   UOk {| p_base := []; p_attrs := [s2b "*"]; p_scope := Subtree; p_filter := s2b "(objectClass=*)";
@@ -181,13 +185,36 @@ Proof.
   destruct (join ","%byte attrs) as [|j0 jt] eqn:Ej; [congruence|]. rewrite <- Ej.
   rewrite split_join; [|assumption|eapply Forall_impl; [|exact Hat]; intros a (_ & H & _); exact H].
   assert (Hs : exists w0 wt, scope_word sc = w0 :: wt) by (destruct sc; eexists; eexists; reflexivity). destruct Hs as (w0 & wt & Ew). rewrite Ew, <- Ew.
-  assert (Hsc : (if beqs (scope_word sc) (s2b "base") then UOk Base else if beqs (scope_word sc) (s2b "one") then UOk OneLevel
-                 else if beqs (scope_word sc) (s2b "sub") then UOk Subtree else UErr EScope) = UOk sc) by (destruct sc; reflexivity).
-  rewrite Hsc.
+  assert (Hsc : (let sc1 := map lc (scope_word sc) in if beqs sc1 (s2b "base") then UOk Base else if beqs sc1 (s2b "one") then UOk OneLevel
+                 else if beqs sc1 (s2b "sub") then UOk Subtree else UErr EScope) = UOk sc) by (destruct sc; reflexivity).
+  cbv zeta in Hsc |- *. rewrite Hsc.
   assert (Hpf : penc filt <> []) by (destruct filt as [|c r]; [congruence|]; cbn; destruct (unreserved c); discriminate).
   destruct (penc filt) as [|p0 pt] eqn:Ep; [congruence|]. rewrite <- Ep. rewrite pdec_penc, Hf. cbn [negb]. reflexivity.
 Qed.
 Print Assumptions c20_roundtrip.
+(* repair F35: the scope word in any spelling of its letters (RFC 4516 gives the words as ABNF literals, which match without regard to case) *)
+Theorem c20_scope_any_case base attrs w sc filt : map lc w = scope_word sc -> no_byte "?"%byte w ->
+  Utf8.valid base = true -> Utf8.valid filt = true -> filt <> [] -> attrs <> [] -> Forall attr_ok attrs ->
+  get_url_params ("/"%byte :: penc base) (Some (join ","%byte attrs ++ "?"%byte :: w ++ "?"%byte :: penc filt)) =
+  UOk {| p_base := base; p_attrs := attrs; p_scope := sc; p_filter := filt; p_exts := [] |}.
+Proof.
+  intros Hw Hq2 Hb Hf Hfn Han Hat. unfold get_url_params. cbn [beq Byte.eqb]. change (beq "/" "/")%byte with true. cbn match.
+  rewrite pdec_penc, Hb. cbn [negb].
+  assert (Hq1 : no_byte "?"%byte (join ","%byte attrs)) by (apply no_byte_join; [eapply Forall_impl; [|exact Hat]; intros a (_ & _ & H); exact H|reflexivity]).
+  rewrite splitn_field by exact Hq1. rewrite splitn_field by exact Hq2. rewrite splitn_end by (apply penc_no; now left).
+  cbn [app nth_error].
+  assert (Hj : join ","%byte attrs <> []).
+  { destruct attrs as [|a l]; [congruence|]. inversion Hat as [|? ? (Hne & _) _]; subst. destruct l; cbn [join]; [exact Hne|]. destruct a; [congruence|discriminate]. }
+  destruct (join ","%byte attrs) as [|j0 jt] eqn:Ej; [congruence|]. rewrite <- Ej.
+  rewrite split_join; [|assumption|eapply Forall_impl; [|exact Hat]; intros a (_ & H & _); exact H].
+  assert (Hs : exists w0 wt, w = w0 :: wt) by (destruct w; [destruct sc; discriminate|eexists; eexists; reflexivity]). destruct Hs as (w0 & wt & Ew). rewrite Ew, <- Ew.
+  assert (Hsc : (let sc1 := map lc w in if beqs sc1 (s2b "base") then UOk Base else if beqs sc1 (s2b "one") then UOk OneLevel
+                 else if beqs sc1 (s2b "sub") then UOk Subtree else UErr EScope) = UOk sc) by (rewrite Hw; destruct sc; reflexivity).
+  cbv zeta in Hsc |- *. rewrite Hsc.
+  assert (Hpf : penc filt <> []) by (destruct filt as [|c r]; [congruence|]; cbn; destruct (unreserved c); discriminate).
+  destruct (penc filt) as [|p0 pt] eqn:Ep; [congruence|]. rewrite <- Ep. rewrite pdec_penc, Hf. cbn [negb]. reflexivity.
+Qed.
+Print Assumptions c20_scope_any_case.
 
 (* ---------- C20 round trip, extensions included ---------- *)
 Require Import Coq.Strings.String.
@@ -262,9 +289,9 @@ Proof.
   destruct (join ","%byte attrs) as [|j0 jt] eqn:Ej; [congruence|]. rewrite <- Ej.
   rewrite (split_join ","%byte attrs); [|assumption|eapply Forall_impl; [|exact Hat]; intros a (_ & H & _); exact H].
   assert (Hs : exists w0 wt, scope_word sc = w0 :: wt) by (destruct sc; eexists; eexists; reflexivity). destruct Hs as (w0 & wt & Ew). rewrite Ew, <- Ew.
-  assert (Hsc : (if beqs (scope_word sc) (s2b "base") then UOk Base else if beqs (scope_word sc) (s2b "one") then UOk OneLevel
-                 else if beqs (scope_word sc) (s2b "sub") then UOk Subtree else UErr EScope) = UOk sc) by (destruct sc; reflexivity).
-  rewrite Hsc.
+  assert (Hsc : (let sc1 := map lc (scope_word sc) in if beqs sc1 (s2b "base") then UOk Base else if beqs sc1 (s2b "one") then UOk OneLevel
+                 else if beqs sc1 (s2b "sub") then UOk Subtree else UErr EScope) = UOk sc) by (destruct sc; reflexivity).
+  cbv zeta in Hsc |- *. rewrite Hsc.
   assert (Hpf : penc filt <> []) by (destruct filt as [|c r]; [congruence|]; cbn; destruct (unreserved c); discriminate).
   destruct (penc filt) as [|p0 pt] eqn:Ep; [congruence|]. rewrite <- Ep. rewrite pdec_penc, Hf. cbn [negb].
   assert (Hje : join ","%byte (map fmt_ext ces) <> []).
@@ -305,13 +332,13 @@ Qed.
 
 (* an invalid scope word is an error, whatever follows it *)
 Theorem c20_bad_scope base attrs w rest : Utf8.valid base = true -> attrs <> [] -> Forall attr_ok attrs ->
-  w <> [] -> no_byte "?"%byte w -> beqs w (s2b "base") = false -> beqs w (s2b "one") = false -> beqs w (s2b "sub") = false ->
+  w <> [] -> no_byte "?"%byte w -> beqs (map lc w) (s2b "base") = false -> beqs (map lc w) (s2b "one") = false -> beqs (map lc w) (s2b "sub") = false ->
   get_url_params ("/"%byte :: penc base) (Some (join ","%byte attrs ++ "?"%byte :: w ++ "?"%byte :: rest)) = UErr EScope.
 Proof.
   intros Hb Han Hat Hw Hwq E1 E2 E3. unfold get_url_params. change (beq "/" "/")%byte with true. cbn match. rewrite pdec_penc, Hb. cbn [negb].
   assert (Hq1 : no_byte "?"%byte (join ","%byte attrs)) by (apply no_byte_join; [eapply Forall_impl; [|exact Hat]; intros a (_ & _ & H); exact H|reflexivity]).
   rewrite splitn_field by exact Hq1. rewrite splitn_field by exact Hwq. cbn [app nth_error].
-  destruct w as [|w0 wt]; [congruence|]. now rewrite E1, E2, E3.
+  destruct w as [|w0 wt]; [congruence|]. cbv zeta. now rewrite E1, E2, E3.
 Qed.
 
 (* a percent-sequence that does not decode to UTF-8 in the base DN is an error *)
